@@ -4,6 +4,7 @@ package server
 
 import (
 	"fmt"
+	"math"
 	"math/rand"
 	"os"
 	"strings"
@@ -195,6 +196,28 @@ func runC05(w *World) {
 					}
 					if r.Intn(8) == 0 {
 						a = append(a, "EX", []string{"0.3", "1", "2"}[r.Intn(3)])
+					}
+					if !fence.area.circle && r.Intn(4) == 0 {
+						// a rectangle object: clearly inside, clearly outside, or straddling the
+						// border (which WITHIN and INTERSECTS fences read differently)
+						ar := &fence.area
+						cLat, cLon := (ar.minLat+ar.maxLat)/2, (ar.minLon+ar.maxLon)/2
+						dLat, dLon := (ar.maxLat-ar.minLat)/2, (ar.maxLon-ar.minLon)/2
+						u := float64(uniq*10+i) * 0.00001
+						var b [4]float64
+						switch r.Intn(4) {
+						case 0:
+							b = [4]float64{pos[0] - 0.1*dLat, pos[1] - 0.1*dLon, pos[0] + 0.1*dLat, pos[1] + 0.1*dLon}
+						case 1: // across the east border
+							b = [4]float64{cLat - 0.2*dLat, cLon + 0.5*dLon, cLat + 0.2*dLat, cLon + 2*dLon}
+						case 2: // across the south border
+							b = [4]float64{cLat - 2*dLat, cLon - 0.3*dLon, cLat - 0.5*dLat, cLon + 0.3*dLon}
+						default: // covering the whole area
+							b = [4]float64{cLat - 1.5*dLat, cLon - 1.5*dLon, cLat + 1.5*dLat, cLon + 1.5*dLon}
+						}
+						r5 := func(x float64) float64 { return math.Round(x*100000) / 100000 }
+						p = append(p, Cmd{Args: append(a, "BOUNDS", fnum(r5(b[0]+u)), fnum(r5(b[1])), fnum(r5(b[2])), fnum(r5(b[3])))})
+						break
 					}
 					p = append(p, Cmd{Args: append(a, "POINT", lat, lon)})
 				case x < 14 && fence.whereF == "":
